@@ -84,14 +84,20 @@ impl<const N: usize> NodeVersions<N> {
     }
 
     /// Attempts to update the latest observed timestamp for a given source.
+    ///
+    /// An operation is only refused when it is older than the safe observed
+    /// timestamp of its node, which is exactly what `will_apply` predicts.
     fn try_update_max_stamp(&mut self, source: usize, ts: HLCTimestamp) -> bool {
+        if self.is_ts_before_last_observed_event(ts) {
+            return false;
+        }
+
         match self.nodes_max_stamps[source].entry(ts.node()) {
             Entry::Occupied(mut entry) => {
-                // We have already observed these events at some point from this node.
-                // This means we can no longer trust that this key is in fact still valid.
+                // An older operation arriving late (but still within the
+                // forgiveness period) must not move the observed stamp backwards.
                 if &ts < entry.get() {
-                    self.compute_safe_last_stamp(ts.node());
-                    return false;
+                    return true;
                 }
 
                 entry.insert(ts);
